@@ -51,9 +51,56 @@ func genC08Parallel(d *Draw) Case {
 	return c
 }
 
+// genC08Loop: a task is requested several times in one instance (a loop), and between two of its requests a
+// declared result is stored under the name one of its properties reads - by a task in front of it, or by its own
+// previous answer. Every request has to see what is stored at that moment.
+func genC08Loop(d *Draw) Case {
+	defs := &Definitions{}
+	g := &Graph{ID: "P1", Executable: true}
+	defs.Procs = []*Graph{g}
+	n := 2 + d.N(3)
+	self := d.Bool() // the reading task's own answer stores the value its next request reads
+	g.addNode(&Node{ID: "Start", Kind: "start"})
+	g.addNode(&Node{ID: "LM", Kind: "xor"})
+	g.connect(defs, "Start", "LM", nil, -1)
+	scripts := map[string][]AnswerSpec{}
+	cur := "LM"
+	if !self {
+		g.addNode(&Node{ID: "TW", Kind: "task", Results: []string{"r_TW", "w"}})
+		g.connect(defs, cur, "TW", nil, -1)
+		cur = "TW"
+		for k := 1; k <= n; k++ {
+			scripts["TW"] = append(scripts["TW"], AnswerSpec{Results: map[string]any{"w": fmt.Sprintf("w#%d", k)}})
+		}
+	}
+	tr := g.addNode(&Node{ID: "TR", Kind: "task", Results: []string{"r_TR", "i_TR"}, Counter: "i_TR", Props: []string{"w"}})
+	if self {
+		tr.Results = append(tr.Results, "w")
+		for k := 1; k <= n; k++ {
+			scripts["TR"] = append(scripts["TR"], AnswerSpec{Results: map[string]any{"w": fmt.Sprintf("w#%d", k)}})
+		}
+	}
+	g.connect(defs, cur, "TR", nil, -1)
+	g.addNode(&Node{ID: "LS", Kind: "xor"})
+	g.connect(defs, "TR", "LS", nil, -1)
+	g.connect(defs, "LS", "LM", &Cond{LtVar: "i_TR", Lt: n}, -1)
+	g.addNode(&Node{ID: "End", Kind: "end"})
+	df := g.connect(defs, "LS", "End", nil, -1)
+	g.Node("LS").Default = df.ID
+	g.index()
+	prog := &Program{Defs: defs, Vars: map[string]any{"w": "w#0"}, Desc: fmt.Sprintf("loop*%d( %s TR(reads property w) ), w written by %s", n, map[bool]string{true: "", false: "TW"}[self], map[bool]string{true: "TR's own answer", false: "TW"}[self])}
+	c := &ProcCase{Prog: prog, Buf: d.N(17), Hold: d.N(3), LogProps: true, Scripts: scripts}
+	c.Picks = drawPicks(d, 24)
+	c.Meta = map[string]int{"loop": n, "self": b2i(self)}
+	return c
+}
+
 func genC08(d *Draw) Case {
-	if d.N(4) == 3 {
+	switch d.N(6) {
+	case 3:
 		return genC08Parallel(d)
+	case 4:
+		return genC08Loop(d)
 	}
 	defs := &Definitions{}
 	g := &Graph{ID: "P1", Executable: true}
@@ -160,6 +207,7 @@ func checkC08(cc Case, r *simrt.Result) *Outcome {
 	calls := map[string]*call{}
 	var finalVars map[string]any
 	var props = map[string]map[string]any{}
+	propSeq := map[string][]map[string]any{} // per activity: the properties of its requests, in order
 	for _, ev := range c.env.L.E {
 		switch ev.Kind {
 		case "do-call":
@@ -173,6 +221,7 @@ func checkC08(cc Case, r *simrt.Result) *Outcome {
 		case "props":
 			pv, _ := ev.V.(map[string]any)
 			props[ev.A] = pv
+			propSeq[ev.A] = append(propSeq[ev.A], pv)
 		}
 	}
 	blocked := 0
@@ -237,6 +286,17 @@ func checkC08(cc Case, r *simrt.Result) *Outcome {
 			vl.add("C08/undeclared-stored", "undeclared result u_T1 was stored as a variable")
 		}
 	}
+	if n := c.Meta["loop"]; n > 0 && tg.Quiesced && len(tg.Viol) == 0 {
+		for k, pv := range propSeq["TR"] {
+			want := fmt.Sprintf("w#%d", k+1)
+			if c.Meta["self"] == 1 {
+				want = fmt.Sprintf("w#%d", k)
+			}
+			if canon(pv["w"]) != canon(want) {
+				vl.add("C08/result-not-visible", "request %d of TR: GetProperties()[w] = %v, the variable holds %s at that moment (stored by the answer given just before)", k+1, pv["w"], want)
+			}
+		}
+	}
 	if k := c.Meta["parallel"]; k > 0 && tg.Quiesced && len(tg.Viol) == 0 {
 		if pv, ok := props["TZ"]; ok {
 			for i := 1; i <= k; i++ {
@@ -251,6 +311,7 @@ func checkC08(cc Case, r *simrt.Result) *Outcome {
 	o.Nontrivial = r.Switches > 0
 	fc := c.env.FaultCounts()
 	probe(o, "parallel-result-writers", c.Meta["parallel"] > 0)
+	probe(o, "task-requested-again-after-the-variable-its-property-reads-changed", c.Meta["loop"] > 0)
 	probe(o, "client-reads-variables-while-answers-are-stored", c.Stress != nil && c.Stress.Readers > 0)
 	probe(o, "duplicate-answer", fc["duplicate-answer"] > 0)
 	probe(o, "concurrent-answers", fc["concurrent-answers"] > 0)
